@@ -144,7 +144,12 @@ InfoMonotone ==
            \/ (nst[n].info[o][1] = nst'[n].info[o][1] /\ nst[n].info[o][2] <= nst'[n].info[o][2]) ]_vars
 
 \* flooding terminates: with no further events and no node needing to originate, the mesh becomes quiet
-Converges == <>[](MeshQuiet)
+\* (a run that exhausts the model's bound on own updates is cut off, not divergent)
+Converges == <>[](MeshQuiet \/ \E n \in Nodes : nst[n].seq = MaxSeq)
+
+\* under fairness of delivery and of the periodic/requested own updates, the mesh reaches a stable state (which is a
+\* converged one by StableImpliesConverged) and stays there: routing converges after the last event (C01, liveness half)
+EventuallyStable == <>[](Stable \/ \E n \in Nodes : nst[n].seq = MaxSeq)
 
 W_NotStableAfterEvents == ~(Stable /\ ev = MaxEv)
 W_NoIndirectRoute == ~(Stable /\ \E n \in Nodes : \E d \in DOMAIN TableOf(n).t : TableOf(n).t[d] # d)
